@@ -33,7 +33,7 @@ COUNTS = {'quick': 420, 'thorough': 12000}
 BUDGET = {'quick': 110, 'thorough': 1500}
 TIMEOUT = 240
 SHRINK_LISTS = [['ops']]
-EXPECTED_PROBES = ['hist_calls', 'pattern_changed', 'singular_seen', 'recovered_after_singular', 'refactor_path_taken',
+EXPECTED_PROBES = ['hist_calls', 'same_object_calls', 'pattern_changed', 'singular_seen', 'recovered_after_singular', 'refactor_path_taken',
                    'cross_compared', 'eig_compared', 'repeat_compared', 'ipadd0', 'linsolve1']
 RULE = ('plans of classes hist/stale/cross/repeat (module doc); non-trivial = a pattern or value change reached a cached factor, a '
         'fault fired, or two configurations were compared; distinct = (class, back-end, op-kind sequence / option pair / case)')
@@ -62,7 +62,8 @@ def plans(seed, tier, count):
             for call in ('solve', 'linsolve'):
                 out.append({'property': PROP, 'cls': 'hist', 'seed': core.H('fix16', be, refresh, call), 'backend': be, 'n': 6,
                             'ops': [{'kind': k, 'call': call, 'refresh': refresh or k == 'first'} for k in
-                                    ('first', 'same_pattern', 'new_pattern', 'singular', 'same_pattern', 'new_size', 'same_pattern')]})
+                                    ('first', 'same_pattern', 'same_object', 'new_pattern', 'same_object', 'singular', 'same_pattern', 'new_size',
+                                     'same_pattern', 'same_object_singular', 'same_object')]})
     i = 0
     while len(out) < count:
         out.append({'stub': True, 'seed': core.H(seed, PROP, i), 'tier': tier})
@@ -82,7 +83,8 @@ def elaborate(stub):
         n = r.randint(2, 14)
         ops = [{'kind': 'first', 'call': r.choice(['solve', 'linsolve']), 'refresh': True}]
         for _ in range(r.randint(2, 9)):
-            kind = r.choice(['same_pattern'] * 4 + ['new_pattern'] * 2 + ['new_size', 'singular', 'singular'])
+            kind = r.choice(['same_pattern'] * 3 + ['same_object'] * 3 + ['new_pattern'] * 2 + ['new_size', 'singular', 'singular',
+                                                                                                'same_object_singular'])
             ops.append({'kind': kind, 'call': r.choice(['solve', 'solve', 'linsolve']), 'refresh': r.random() < 0.6})
         return {'property': PROP, 'cls': 'hist', 'seed': seed, 'backend': be, 'n': n, 'ops': ops}
     rng = stream(seed, 'case')
@@ -159,6 +161,7 @@ def run_hist(plan):
     pat = _rand_pattern(r, n)
     after_singular = False
     kinds = []
+    sp = None
     for oi, op in enumerate(plan['ops']):
         kind = op['kind']
         singular = False
@@ -169,11 +172,17 @@ def run_hist(plan):
             n = max(2, n + r.choice([-2, -1, 1, 2, 5]))
             pat = _rand_pattern(r, n)
             probes['pattern_changed'] += 1
-        elif kind == 'singular':
+        elif kind in ('singular', 'same_object_singular'):
             singular = True
         A = _fill(r, n, pat, singular=singular)
         b = np.array([r.uniform(-1, 1) for _ in range(n)])
-        sp = _to_sp(A, pat)
+        if kind.startswith('same_object') and oi > 0:
+            # the matrix object of the previous call, values changed in place (what ipadd / ipset accumulation does)
+            for (i, j) in pat:
+                sp[i, j] = float(A[i, j])
+            probes['same_object_calls'] = probes.get('same_object_calls', 0) + 1
+        else:
+            sp = _to_sp(A, pat)
         if op.get('refresh'):
             # what pflow.py / daeint.py do when the Jacobian was rebuilt
             solver.worker.factorize = True
